@@ -889,9 +889,32 @@ func crashLine(log string) string {
 		if len(m) > 160 {
 			m = m[:160]
 		}
+		// a runtime error says nothing about where it happened: name the function
+		// that was running, so that a known crash is identified by its site
+		if strings.Contains(m, "runtime error") {
+			if site := crashSite(log); site != "" {
+				m += "@" + site
+			}
+		}
 		return m
 	}
 	return "child exited without a result"
+}
+
+var crashSiteRe = regexp.MustCompile(`(?m)^goroutine \d+ \[running\]:\n((?:panic\(|runtime\.|testing\.)[^\n]*\n\t[^\n]*\n)*([^\n(]*(?:\([^)]*\))?[^\n(]*)\(`)
+
+// crashSite returns the first non-runtime function of the goroutine that was
+// running when the process died (package path stripped).
+func crashSite(log string) string {
+	m := crashSiteRe.FindStringSubmatch(log)
+	if m == nil {
+		return ""
+	}
+	fn := m[2]
+	if i := strings.LastIndexByte(fn, '/'); i >= 0 {
+		fn = fn[i+1:]
+	}
+	return fn
 }
 
 var failRe = regexp.MustCompile(`(?m)^\s+\S+_test\.go:\d+: .*$`)
